@@ -134,6 +134,8 @@ func runC01(t fataler, c c01Case) (string, c01Result) {
 	}
 	pr.Cl.SetReadLimit(-1)
 	pr.Sv.SetReadLimit(-1)
+	defer lastWriters.Delete(pr.Cl)
+	defer lastWriters.Delete(pr.Sv)
 	if c.StallLen > 0 && spec.AfterDial == nil {
 		from, to, gate := pr.Cl, pr.Sv, pr.SvEnd
 		if !c.StallClient {
